@@ -2344,6 +2344,18 @@ func genLogging(repo string) string {
 	b.WriteString("\n/-! Logger.log -/\n")
 	fmt.Fprintf(&b, "/-- the early-return checks and the final call, in source order -/\ndef logOrder : List String := %s\n", lgStrList(F.logOrder))
 	bl("levelMethodsUseLog", "Debug / Info / Warn / Error are one call of `log` each", F.levelMethodsUseLog)
+	var BF lgBatchFacts
+	if len(x.fns) > 0 {
+		x.guard("BatchLogger", func() { BF = x.batchFacts() })
+	}
+	batchText := BF.lean()
+	if n := len(x.errs); n > 0 && strings.HasPrefix(x.errs[n-1], "BatchLogger") {
+		// (the error list was rendered above: a failure here is reported through its own definition)
+		batchText += "def batchExtractError : String := " + leanStr(x.errs[n-1]) + "\n"
+	} else {
+		batchText += "def batchExtractError : String := \"\"\n"
+	}
+	b.WriteString(batchText)
 	b.WriteString("\nend Rivaas.Gen.Logging\n")
 	return b.String()
 }
